@@ -68,8 +68,9 @@ func drawSRID(s *core.Source) int {
 		return 1 + s.Intn(70000, "small")
 	default:
 		// bytes that the scanner's framing detection looks for ('0','1','\\','x', 0, 1) in every position
-		pool := []uint32{0x00, 0x01, 0x30, 0x31, 0x5c, 0x78, 0x7f}
-		v := pool[s.Intn(7, "b0")] | pool[s.Intn(7, "b1")]<<8 | pool[s.Intn(7, "b2")]<<16 | pool[s.Intn(6, "b3")]<<24
+		// (also the geometry type codes and the EWKB flag byte: an SRID prefix that looks like a header)
+		pool := []uint32{0x00, 0x01, 0x30, 0x31, 0x5c, 0x78, 0x02, 0x03, 0x04, 0x05, 0x06, 0x07, 0x20, 0x7f}
+		v := pool[s.Intn(14, "b0")] | pool[s.Intn(14, "b1")]<<8 | pool[s.Intn(14, "b2")]<<16 | pool[s.Intn(13, "b3")]<<24
 		if v == 0 {
 			v = 0x3030
 		}
@@ -610,7 +611,15 @@ func RunPaths(t *core.T) {
 		var got orb.Geometry
 		var gs int
 		var err error
-		if t.Guard("wkb.Unmarshal", func() { got, err = wkb.Unmarshal(cp(plain)) }) || !check("wkb.Unmarshal", got, 0, 0, err) {
+		in := cp(plain)
+		if t.Guard("wkb.Unmarshal", func() { got, err = wkb.Unmarshal(in) }) || !check("wkb.Unmarshal", got, 0, 0, err) {
+			return
+		}
+		for i := range in {
+			in[i] = 0x5A // the caller reuses its buffer: the decoded value must not change with it
+		}
+		if !m.Equal(got, norm) {
+			t.Violate("result-aliased", "wkb.Unmarshal", "", "the geometry returned by Unmarshal changed when the caller overwrote the input buffer: now %s, was %s", gen.Describe(got), gen.Describe(norm))
 			return
 		}
 		if t.Guard("wkb.Unmarshal", func() { got, err = wkb.Unmarshal(cp(ext)) }) || !check("wkb.Unmarshal(ewkb bytes)", got, 0, 0, err) {
@@ -664,9 +673,12 @@ func RunPaths(t *core.T) {
 	if prefixSRID == 0 {
 		prefixSRID = 4326
 	}
+	// The deprecated fallback of wkb.Scanner strips the prefix when the blob does not start like WKB
+	// or hex. Prefixes that DO look like one of those are ambiguous by construction and not part of the
+	// claim: first byte 0 or 1 (a byte-order byte), "00"/"01" (hex), "\\x".
 	wkbPrefixOK := func(v int) bool {
-		lb := byte(v)
-		return lb != 0 && lb != 1 && lb != '0' && lb != '\\'
+		b0, b1 := byte(v), byte(v>>8)
+		return b0 != 0 && b0 != 1 && !(b0 == '0' && (b1 == '0' || b1 == '1')) && !(b0 == '\\' && b1 == 'x')
 	}
 	var combos []combo
 	for _, f := range []int{simdb.Raw, simdb.HexLower, simdb.HexUpper, simdb.BackslashX} {
